@@ -231,6 +231,18 @@ def small_chain_jobs(k, idx):
     job("generic-argument-record-loses-optional-field", s0, [("v0", model([x], [r, g, a]))])
     job("generic-argument-record-reordered", model([x], [g, r]), [("v0", s0)])
     job("generic-argument-record-changed-then-other-record-changed", model([x, y], [r, g, a]), [("v0", s0), ("v1", model([x], [r, g, a]))])
+    # the evolving record lives in an imported package (whose previous version is imported by the previous version of the main package)
+    def with_lib(pt_fields, own_types, libdir):
+        lib = Package("Lib", defs=[Record("Pt", pt_fields), Record("Wide", [("n", P("string")), ("p", N("Pt"))])], dirname=libdir)
+        defs = [Record("Own", [("o", P("int32")), ("p", N("Lib.Pt"))])] if own_types else []
+        steps = [("pt", N("Lib.Pt")), ("pts", Vec(N("Lib.Pt"))), ("ptf", Vec(N("Lib.Pt"), 2)), ("ptstream", Stream(N("Lib.Pt"))), ("wide", N("Lib.Wide")), ("last", P("int32"))]
+        if own_types:
+            steps.append(("own", N("Own")))
+        return Package("Evo", defs=defs, protocols=[Protocol("Proto", steps)], imports=[lib], dirname="evo")
+    for own in (True, False):
+        sfx = "" if own else "/main-package-without-types"
+        job("imported-memcpy-record-field-added" + sfx, with_lib([x, y], own, "libn"), [("v0", with_lib([x], own, "libo"))])
+        job("imported-memcpy-record-field-removed" + sfx, with_lib([x], own, "libn"), [("v0", with_lib([x, y], own, "libo"))])
     job("generic-definition-gains-optional-field", model([x], [r, g], image_fields=[("data", Vec(TP("T"))), ("w", P("int32")), ("note", Opt(P("string")))]), [("v0", s0)])
     return jobs
 
